@@ -188,9 +188,18 @@ def apply_state(lf, state, omp_free):
 
 
 def cond_tol(*tables):
+    """1e-9, widened when the smallest off-diagonal of some P(t) (~ shortest positive length x smallest rate
+    multiplier below one) drops under 1e-5; capped at 1e-5"""
     lens = [v[0] for t in tables for k, v in t.items() if k[0] == "length" and v[0] > 0]
-    shortest = min(lens) if lens else 1.0
-    return LNL_TOL * max(1.0, 1e-5 / shortest)
+    rates = [v[0] for t in tables for k, v in t.items() if k[0] not in ("length", "mprobs") and 0 < v[0] < 1]
+    scale = (min(lens) if lens else 1.0) * (min(rates) if rates else 1.0)
+    return min(1e-5, LNL_TOL * max(1.0, 1e-5 / scale))
+
+
+def oracle_tol(tol):
+    """the oracle uses scipy's Pade expm, cogent3 an eigendecomposition: the two agree to ~1e-14 on ordinary points
+    and to ~1e-8 on ill-conditioned ones; a stale or mis-attributed lnL is off by far more than this"""
+    return max(1e-6, 1000 * tol)
 
 
 def oracle(spec, lf, seqs):
@@ -207,26 +216,47 @@ def _short(case, n=700):
 
 
 # ------------------------------------------------------------------------------------------------ init_nested
+NON_STATIONARY = {"GN", "ssGN"}
+
+
+_cells = X.param_cells
+
+
+def unmapped_params(null_sm, alt_sm):
+    """parameters of the richer model that no parameter of the nested model covers: they multiply cells that
+    belong to the nested model's reference class, so the nested model is the richer one with these equal to 1"""
+    if X.MODELS[alt_sm][0] != "nuc":
+        return [p for p in rate_names(alt_sm) if p not in rate_names(null_sm)]
+    null_cells = [_cells(q) for q in rate_names(null_sm)]
+    return [p for p in rate_names(alt_sm) if not any(_cells(p) <= c for c in null_cells)]
+
+
+def _stationarity(null_sm, alt_sm):
+    a, b = null_sm in NON_STATIONARY, alt_sm in NON_STATIONARY
+    return "" if a == b else "stationary-null-in-nonstationary-alt"
+
+
 def pair_kind(null, alt):
     matrix = null["sm"] != alt["sm"] or bool(null.get("omp")) != bool(alt.get("omp"))
     scope = (null.get("rules") or []) != (alt.get("rules") or [])
     kind = "+".join(k for k, on in (("matrix", matrix), ("scope", scope)) if on) or "same"
-    null_names = set(rate_names(null["sm"]))
+    unmapped = set(unmapped_params(null["sm"], alt["sm"]))
     flags = []
-    scoped_new = [r for r in alt.get("rules") or [] if r["par_name"] not in null_names and r["par_name"] != "length"
-                  and (r.get("edges") or r.get("edge") or r.get("is_independent"))]
-    if scoped_new:
-        flags.append("new-param-edge-scoped")
+    if any(r["par_name"] in unmapped and (r.get("edges") or r.get("edge") or r.get("is_independent"))
+           for r in alt.get("rules") or []):
+        flags.append("edge-scoped-param-in-null-reference-class")
+        if _stationarity(null["sm"], alt["sm"]):
+            flags.append(_stationarity(null["sm"], alt["sm"]))
     return kind, flags
 
 
-def preset_flags(null, preset):
-    null_names = set(rate_names(null["sm"])) | {"length"}
+def preset_flags(null, alt, preset):
     if not preset:
         return []
-    if any(r["par_name"] not in null_names for r in preset):
-        return ["alt-preset-on-new-param"]
-    return ["alt-preset-on-shared-param"]
+    unmapped = set(unmapped_params(null["sm"], alt["sm"]))
+    if any(r["par_name"] in unmapped for r in preset):
+        return ["alt-preset-on-param-in-null-reference-class"]
+    return ["alt-preset-on-mapped-param"]
 
 
 def gen_init(tier, seed):
@@ -251,7 +281,7 @@ def gen_init(tier, seed):
             if aomp and a in EQUAL_PI:
                 continue
             for i, (tree, aln, state) in enumerate(itertools.product(trees, alns, states)):
-                if not thorough and (i + NUC.index(n) + NUC.index(a)) % 3:      # quick: a third of the grid
+                if (i + NUC.index(n) + NUC.index(a)) % 3:      # a third of the (tier-dependent) grid, offset by the pair
                     continue
                 post = {"evals": (1, 5, 40)[i % 3], "local": (True, None)[i % 2], "seed": 3}
                 yield case({"sm": n, "omp": nomp, "rules": []}, {"sm": a, "omp": aomp, "rules": []}, tree, aln, state,
@@ -262,7 +292,7 @@ def gen_init(tier, seed):
             for k, (tree, aln, state) in enumerate(itertools.product(trees, alns, states)):
                 if not thorough and (sm not in ("HKY85", "GTR") or k % 4 != (i + j) % 4):
                     continue
-                if thorough and sm not in ("HKY85", "GTR") and k % 3:
+                if thorough and k % (2 if sm in ("HKY85", "GTR") else 4) != (i + j) % 2:
                     continue
                 cv = 1.0 if (i + j + k) % 2 else 2.0
                 yield case({"sm": sm, "omp": False, "rules": scope_rules(sm, SCOPES[i], cv)},
@@ -271,7 +301,7 @@ def gen_init(tier, seed):
     for sm in ("F81", "HKY85", "GN"):
         for ln, la in LEN_NESTED:
             for k, (tree, aln, state) in enumerate(itertools.product(trees, alns, states)):
-                if not thorough and k % 3:
+                if k % (2 if thorough else 3):
                     continue
                 yield case({"sm": sm, "omp": False, "rules": length_rules(ln)},
                            {"sm": sm, "omp": False, "rules": length_rules(la)}, tree, aln, state)
@@ -332,12 +362,15 @@ def contract_init(case):
     null_spec, alt_spec = case["null"], case["alt"]
     seqs = case["seqs"]
     kind, flags = pair_kind(null_spec, alt_spec)
-    flags = flags + preset_flags(null_spec, case["alt_preset"])
+    flags = flags + preset_flags(null_spec, alt_spec, case["alt_preset"])
     tag = "/".join([kind] + flags)
     with warnings.catch_warnings():
         warnings.simplefilter("ignore")
         null = build_lf(null_spec, case["tree"], seqs)
-        apply_state(null, case["null_state"], bool(null_spec.get("omp")) and null_spec["sm"] not in EQUAL_PI)
+        try:
+            apply_state(null, case["null_state"], bool(null_spec.get("omp")) and null_spec["sm"] not in EQUAL_PI)
+        except Exception as e:      # noqa: BLE001 - fitting the nested model is an optimise() call on a legal start
+            return ("fail", f"init/fit-of-nested-model-raises-{type(e).__name__}", f"{_short(case)}: {type(e).__name__}: {str(e)[:200]}")
         alt = build_lf(alt_spec, case["tree"], seqs)
         for r in case["alt_preset"]:
             alt.set_param_rule(**r)
@@ -350,14 +383,19 @@ def contract_init(case):
         alt_before = table_of(alt)
         alt_nfp = alt.get_num_free_params()
         alt_lnl_before = float(alt.lnL)
-        # the null's fitted values must lie inside the richer model's parameter space (else not nested)
+        # genuinely nested includes the declared bounds: the null's fitted point must be representable by the richer
+        # model with every parameter inside its bounds (same-named parameters directly, rate parameters through
+        # the published rate-matrix definitions)
         for (name, edge), (v, lo, hi, const) in null_table.items():
             a = alt_before.get((name, edge))
             if a is not None and not a[3] and a[1] is not None and a[2] is not None and not (a[1] <= v <= a[2]):
                 return ("skip",)
+        alt_bounds = {k: (v[1], v[2]) for k, v in alt_before.items() if not v[3] and k[0] not in ("mprobs", "length")}
+        if X.outside_bounds(X.projected_values(null_spec["sm"], alt_spec["sm"], null.get_param_rules(), edges_of(null)), alt_bounds):
+            return ("skip",)
         expected = oracle(null_spec, null, seqs)
         tol = cond_tol(null_table)
-        if expected is not None and abs(expected - null_lnl) > 10 * tol:
+        if expected is not None and abs(expected - null_lnl) > oracle_tol(tol):
             return ("fail", "init/null-lnL-is-not-the-likelihood-of-its-reported-parameters",
                     f"{_short(case)}: null.lnL={null_lnl!r}, oracle on null.get_param_rules() gives {expected!r}")
         try:
@@ -370,11 +408,10 @@ def contract_init(case):
             return ("fail", f"init/nested-model-modified/{tag}",
                     f"{_short(case)}: null.lnL {null_lnl!r} -> {float(null.lnL)!r} after initialising the richer model from it")
         if not abs(got - null_lnl) <= tol:
-            direction = "lower" if got < null_lnl else ("higher" if got > null_lnl else "nan")
-            return ("fail", f"init/lnL-{direction}-than-nested/{tag}",
+            return ("fail", f"init/lnL-differs-from-nested/{tag}",
                     f"{_short(case)}: alt.lnL={got!r} after initialise_from_nested, null.lnL={null_lnl!r}, "
                     f"difference {got - null_lnl:.3e} (alt.lnL before the call {alt_lnl_before!r})")
-        if expected is not None and abs(got - expected) > 10 * tol:
+        if expected is not None and abs(got - expected) > oracle_tol(tol):
             return ("fail", f"init/lnL-differs-from-oracle/{tag}",
                     f"{_short(case)}: alt.lnL={got!r}, oracle on the null's parameters {expected!r}")
         if alt.get_num_free_params() != alt_nfp:
@@ -385,7 +422,7 @@ def contract_init(case):
         if bad:
             return ("fail", f"init/value-outside-bounds/{bad[0][0][0]}/{tag}", f"{_short(case)}: {bad[:3]}")
         own = oracle(alt_spec, alt, seqs)
-        if own is not None and abs(own - got) > 10 * cond_tol(alt_table):
+        if own is not None and abs(own - got) > oracle_tol(cond_tol(alt_table)):
             return ("fail", f"init/alt-lnL-is-not-the-likelihood-of-its-reported-parameters/{tag}",
                     f"{_short(case)}: alt.lnL={got!r}, oracle on alt.get_param_rules() gives {own!r}")
         post = case["post_opt"]
@@ -464,7 +501,7 @@ def gen_optimise(tier, seed):
     settings = opt_settings(thorough)
     models = [("HKY85", False), ("HKY85", True), ("F81", True), ("GTR", False), ("GN", False), ("K80", False),
               ("TN93", True), ("ssGN", True), ("JC69", False)]
-    trees = ["t4r", "t3"] + (["t4u", "t5"] if thorough else [])
+    trees = ["t4r", "t3"] + (["t5"] if thorough else [])
     alns = ["amb", "clean"] + (["gap"] if thorough else [])
     n = 0
     for (sm, omp), tree, aln in itertools.product(models, trees, alns):
@@ -477,7 +514,8 @@ def gen_optimise(tier, seed):
                     continue
             for si, opt in enumerate(settings):
                 n += 1
-                if not thorough and (n % 4) and not (sm == "HKY85" and tree == "t4r" and aln == "amb"):
+                core = sm == "HKY85" and not omp and tree == "t4r" and aln == "amb"
+                if (n % (3 if thorough else 8)) and not core:
                     continue
                 yield {"model": {"sm": sm, "omp": omp, "rules": []}, "tree": TREES[tree], "seqs": seqs_for(aln, tree),
                        "start": {"kind": "rules", "rules": rules, "name": sk}, "opt": opt}
@@ -497,7 +535,7 @@ def gen_optimise(tier, seed):
         yield {"model": {"sm": ("MG94HKY", "CNFGTR")[k % 2], "rules": []}, "tree": TREES["t3"], "seqs": CODON_ALN,
                "start": {"kind": "rules", "rules": [], "name": "default"}, "opt": opt}
     if thorough:
-        for k in range(1500):
+        for k in range(1200):
             sm, omp = rnd.choice(models)
             tree = rnd.choice(list(TREES))
             scope = rnd.choice(SCOPES) if rate_names(sm) else "shared"
@@ -525,13 +563,16 @@ def _limit(opt):
 def contract_optimise(case):
     spec, seqs, opt = case["model"], case["seqs"], dict(case["opt"])
     limit_action = opt.pop("limit_action", "ignore")
-    where = f"{_mode(opt)}/{_limit(opt)}/start={case['start'].get('name', case['start']['kind'])}"
+    where = f"{_mode(opt)}/{_limit(opt)}"       # the start kind is in the message, not in the key
     if opt.get("local", True) is True:
         opt.pop("seed", None)
     with warnings.catch_warnings():
         warnings.simplefilter("ignore")
         lf = build_lf(spec, case["tree"], seqs)
-        apply_state(lf, case["start"], bool(spec.get("omp")) and spec["sm"] not in EQUAL_PI)
+        try:
+            apply_state(lf, case["start"], bool(spec.get("omp")) and spec["sm"] not in EQUAL_PI)
+        except Exception as e:      # noqa: BLE001 - a start of kind "opt" is itself an optimise() call from the default start
+            return ("fail", f"optimise/raises-{type(e).__name__}/while-preparing-the-start", f"{_short(case)}: {type(e).__name__}: {str(e)[:200]}")
         before = float(lf.lnL)
         if not math.isfinite(before):
             return ("skip",)                  # the optimiser documents a finite start as its precondition
@@ -573,7 +614,7 @@ def contract_optimise(case):
         if lf.get_num_free_params() != nfp:
             return ("fail", f"optimise/free-parameter-count-changed/{where}", f"{_short(case)}: {nfp} -> {lf.get_num_free_params()}")
         own = oracle(spec, lf, seqs)
-        if own is not None and abs(own - after) > 10 * tol:
+        if own is not None and abs(own - after) > oracle_tol(tol):
             return ("fail", f"optimise/lnL-is-not-the-likelihood-of-the-reported-parameters/{where}",
                     f"{_short(case)}: lf.lnL={after!r}, oracle on lf.get_param_rules() gives {own!r}")
     return ("ok", after > before + 1e-9 or (opt.get("max_evaluations") or 99) <= 2)
@@ -595,8 +636,10 @@ def app_kind(null, alt):
     scope = (null.get("time_het"), null.get("param_rules")) != (alt.get("time_het"), alt.get("param_rules"))
     kind = "+".join(k for k, on in (("matrix", matrix), ("scope", scope)) if on) or "same"
     flags = []
-    if alt.get("time_het") and set(rate_names(alt["sm"])) - set(rate_names(null["sm"])):
-        flags.append("new-param-edge-scoped")
+    if alt.get("time_het") and unmapped_params(null["sm"], alt["sm"]):      # time_het scopes every rate parameter
+        flags.append("edge-scoped-param-in-null-reference-class")
+        if _stationarity(null["sm"], alt["sm"]):
+            flags.append(_stationarity(null["sm"], alt["sm"]))
     return "/".join([kind] + flags)
 
 
@@ -641,7 +684,7 @@ def gen_hypothesis(tier, seed):
     n = 0
     for chain, tree, aln, opt in itertools.product(chains, trees, alns, opts):
         n += 1
-        if not thorough and n % 2 and len(chain) == 2 and not any(m.get("time_het") for m in chain):
+        if n % 2 and len(chain) == 2 and not any(m.get("time_het") for m in chain) and (not thorough or n % 4 == 1):
             continue
         yield {"models": chain, "tree": TREES[tree], "seqs": seqs_for(aln, tree), "opt_args": dict(opt, limit_action="ignore")}
     if thorough:
@@ -678,6 +721,13 @@ def contract_hypothesis(case):
             if not nfps[i] > nfps[i - 1]:
                 return ("skip",)      # not a strictly richer model: outside the method's precondition
         for i in range(1, len(models)):
+            # nested includes the apps' bounds: the fitted point of m(i-1) must be representable by m(i) inside them
+            lf0 = result[f"m{i - 1}"].lf
+            proj = X.projected_values(models[i - 1]["sm"], models[i]["sm"], lf0.get_param_rules(), edges_of(lf0))
+            lo, hi = models[i].get("lower", 1e-6), models[i].get("upper", 50)
+            if X.outside_bounds(proj, {k: (lo, hi) for k in proj}):
+                return ("skip",)
+        for i in range(1, len(models)):
             tabs = [X.rule_table(result[f"m{j}"].lf.get_param_rules(), edges_of(result[f"m{j}"].lf)) for j in (i - 1, i)]
             t = max(LR_TOL / 2, cond_tol(*tabs))
             if not lnls[i] >= lnls[i - 1] - t:
@@ -689,7 +739,8 @@ def contract_hypothesis(case):
             return ("fail", "hypothesis/LR-property-negative", f"{_short(case)}: LR={lr!r} lnLs={lnls}")
         if abs(lr - 2 * (max(lnls[1:]) - lnls[0])) > 1e-9:
             return ("fail", "hypothesis/LR-is-not-twice-the-lnL-difference", f"{_short(case)}: LR={lr!r} lnLs={lnls}")
-        if df <= 0 or pvalue is None or not (0.0 <= float(pvalue) <= 1.0):
+        # a rounding-level negative LR (inside the tolerance) has no p-value by the documented convention
+        if df <= 0 or (pvalue is None and lr >= 0) or (pvalue is not None and not (0.0 <= float(pvalue) <= 1.0)):
             return ("fail", "hypothesis/df-or-pvalue", f"{_short(case)}: LR={lr!r} df={df} pvalue={pvalue!r}")
         for i, m in enumerate(models):
             lf = result[f"m{i}"].lf
@@ -728,7 +779,7 @@ BOUNDED = {
                  "lengths at the upper bound, lengths 1e-9, mixed, rates at either bound, tight bounds, start on a bound) x 21 "
                  "optimiser settings (local / global / global+local x max_evaluations 0,1,2,5,50,400,none x tolerances, "
                  "restarts, limit_action ignore/warn/raise); scoped models started from an earlier partial fit; 4 codon cases; "
-                 "thorough adds 1500 seeded random (model, scope, alignment, start, setting) cases",
+                 "thorough adds 1200 seeded random (model, scope, alignment, start, setting) cases",
         "rule": "a case = (model spec, tree, alignment, start, optimiser keywords); skipped when the start has no finite lnL or "
                 "lies outside its bounds; non-trivial when lnL strictly improved or the limit is <= 2 evaluations; distinct by "
                 "hash of the case",
